@@ -1,5 +1,5 @@
 (* Regression witness for the chunk count of the code before 3c3436b. *)
-From Coupe Require Import Lib.Prelude Lib.SFloat Model.GridRcb Proofs.GridRcbMedian Gen.GridRcbGen.
+From Coupe Require Import Lib.Prelude Lib.SFloat Model.GridRcb Proofs.GridRcbMedian Proofs.GridRcbTree Proofs.GridRcbChecker Proofs.GridRcbComplete Gen.GridRcbGen.
 Open Scope Z_scope.
 
 (* ---------- regression witness for the OLD chunk count ---------- *)
@@ -24,4 +24,50 @@ Proof.
   - reflexivity.
   - cbn. lia.
   - vm_compute. reflexivity.
+Qed.
+
+(* ---------- the literal "1% + 1 unit" is false of the code for giant i64 totals ---------- *)
+
+(* the literals of the current code (two chunks at least, TOLERANCE 0.01, axis 1 first) *)
+Definition cfg_fixed : cfg := mkcfg 2 1 4576918229304087675%N 1 1 1 1.
+
+(* 1 x 3 grid, iter_count 1: total 2990798244639171807 (~2^61.4).  The code's
+   min_part_weight is trunc(fl(fl(total)/2 * fl(0.99))) = 1480445131096389888,
+   155 units below 0.495*total - 1 = 1480445131096390043.46...; the first
+   slab weighs exactly that, the second 1 unit (so that no slab next to the
+   cut holds the half-weight mark), and the cut is placed after the first slab. *)
+Definition giant_ws : list Z := [1480445131096389888; 1; 1510353113542781918].
+
+Lemma giant_run : forall T, In T [1; 2; 3; 4; 8; 16]%nat ->
+  grid_rcb cfg_fixed 41 T I64 [1; 3]%nat giant_ws 1 3 = Ok [0; 1; 1]%N.
+Proof. intros T HT. repeat (destruct HT as [<-|HT]; [vm_compute; reflexivity|]). destruct HT. Qed.
+
+(* the strict clause fails: not within 1% + 1 unit, and no adjacent slab holds the half-weight mark *)
+Lemma giant_strict_false :
+  ~ bal_unit (sumZ giant_ws) 1480445131096389888 1 0
+  /\ bal_i64 (sumZ giant_ws) 1480445131096389888 1 0.
+Proof.
+  split.
+  - unfold bal_unit, band_unit, adjacent. vm_compute. intros [H|[[_ H]|[_ H]]]; apply H; reflexivity.
+  - left. unfold band_i64. vm_compute. discriminate.
+Qed.
+
+(* hence the output violates the statement of C10 read with the strict clause,
+   whatever tree is proposed (the checker is complete), and satisfies it with band_i64 *)
+Lemma giant_spec_refuted :
+  ~ C10_spec bal_unit 1 [1; 3]%nat giant_ws 1 [0; 1; 1]%N
+  /\ C10_spec bal_i64 1 [1; 3]%nat giant_ws 1 [0; 1; 1]%N.
+Proof.
+  split.
+  - intros H. apply (check_C10_complete bal_unit bal_unit_b) in H.
+    + vm_compute in H. discriminate.
+    + intros t w r l. apply bal_unit_b_iff.
+    + reflexivity.
+    + left. reflexivity.
+    + repeat constructor.
+    + reflexivity.
+    + cbn. lia.
+  - apply (check_C10_sound bal_i64 bal_i64_b).
+    + intros t w r l. apply bal_i64_b_iff.
+    + vm_compute. reflexivity.
 Qed.
